@@ -21,17 +21,6 @@ IsH1(o) == o.opened /\ o.cfg.carrier = "h1"
 
 Prev(o, a) == LET k == Req(o, a).idx IN IF k > 1 /\ k - 1 <= Len(o.order) THEN o.order[k - 1] ELSE ""
 
-(* The exchange for request a leaves the connection reusable (statement: "reused only *)
-(* if request and response were both complete and neither side asked to close").      *)
-Reusable(o, a) ==
-    LET r == Req(o, a) w == Wire(o, a) IN
-    /\ r.known /\ r.kind = "http" /\ ~r.bad
-    /\ r.done
-    /\ w.ends > 0 /\ ~w.trunc /\ ~w.close
-    /\ ~r.wantclose
-    /\ r.ver = "1.1"
-    /\ r.idx < o.cfg.kamax
-
 (* The close reason was known when the head was written *)
 KnownClose(o, a) ==
     LET r == Req(o, a) IN
@@ -68,7 +57,11 @@ Clauses(o, ev, o2) ==
                     /\ Req(o, b).head /\ Req(o, b).done /\ ~Req(o, b).bad /\ Req(o, b).kind = "http"
                     /\ Connected(o) /\ ~o.shut /\ ~o.cerr
                     /\ App(o, b).started = 0
-            IN (IF \E k \in 1..n : NotClosed(k) THEN <<F("not-closed", "")>> ELSE <<>>)
+                Ctx == IF \E a \in DOMAIN o.apps : App(o, a).parked = "send" /\ App(o, a).recvd < Req(o, a).body
+                       THEN "final-send-parked-body-unread"
+                       ELSE IF \E a \in DOMAIN o.apps : App(o, a).parked = "send" THEN "send-parked"
+                       ELSE "after-response"
+            IN (IF \E k \in 1..n : NotClosed(k) THEN <<F("not-closed", Ctx)>> ELSE <<>>)
             \o (IF \E k \in 1..(IF n > 0 THEN n - 1 ELSE 0) : Stalled(k) THEN <<F("pipeline-stalled", "")>> ELSE <<>>)
       [] OTHER -> <<>>
 
